@@ -6,7 +6,7 @@ for seed in ${1:-1 2}; do
   for s in $(ls seeded); do
     prop=${s%%-*}
     d=$(mktemp -d /tmp/gsrc-XXXXXX); cp -r /repo/src $d/src
-    patch -p1 -s -d $d -i seeded/$s/patch.diff || { echo "seed=$seed $s PATCH-FAILED"; rm -rf $d; continue; }
+    patch -p1 -s -d $d -i /verif/seeded/$s/patch.diff || { echo "seed=$seed $s PATCH-FAILED"; rm -rf $d; continue; }
     out=$(GALLIA_SRC=$d/src VERIF_SEED=$seed timeout 1800 /venv/bin/python -m simcheck $prop --tier quick 2>&1); rc=$?
     rm -rf $d
     case $rc in 1) v=DETECTED;; 0) v=MISSED;; *) v="ERROR($rc)";; esac
